@@ -48,14 +48,15 @@ def main():
                         shutil.copy(os.path.join(sd, f), dst)
     ids = args or sorted(os.listdir(V + "/seeded"))
     # a scratch worktree of /repo HEAD and a private copy of the engine: /repo and bin/engine stay free
-    WT = "/tmp/wt-matrix"
+    shard = os.environ.get("SHARD", "")
+    WT = "/tmp/wt-matrix" + shard
     sh("git -C /repo worktree remove --force %s; rm -rf %s" % (WT, WT))
     if sh("git -C /repo worktree add -q --detach %s HEAD" % WT).returncode != 0:
         sys.exit("cannot create scratch worktree")
-    ENG = "/tmp/engine-matrix"
+    ENG = "/tmp/engine-matrix" + shard
     shutil.copy(V + "/bin/engine", ENG)
     # a private copy of /verif too (evidence and replay files of seeded runs must not land in /verif)
-    VC = "/tmp/verif-matrix"
+    VC = "/tmp/verif-matrix" + shard
     sh("rm -rf %s; mkdir -p %s; rsync -a --exclude .git --exclude bin --exclude replays --exclude seeded %s/ %s/" % (VC, VC, V, VC))
     try:
         run(ids, WT, ENG + " check -verif " + VC)
@@ -95,6 +96,7 @@ def run(ids, WT, ENG):
             for p in props:
                 r = sh("cd /verif && timeout 1200 %s -repo %s -prop %s -tier quick" % (ENG, WT, p))
                 obl = re.findall(r"^obligation (\S+) at (\S+): (\w+)", r.stdout, re.M)
+                obl += [("bounded:" + b, "", "bounded") for b in re.findall(r"^bounded check (\S+):", r.stdout, re.M)]
                 vio = re.findall(r"^VIOLATION .*$", r.stdout, re.M)
                 brk = re.findall(r"^BROKEN.*$", r.stdout, re.M)
                 if brk:
